@@ -194,6 +194,11 @@ ThroughDict(o, t) == \E p \in OpPaths(o) : WalkEntersDict(t, p) \/ WalkEntersDic
 \* keys(branches): leaves are the addressable non-"ns" nodes; an empty nested namespace is no leaf
 Keys(t, branches) == {q \in DOMAIN t : RefAddr(t, q) /\ (t[q] # "ns" \/ branches)}
 
+\* get_sorted_keys(branches=TRUE):257-273: the leaf keys plus every proper prefix of a nested leaf key, deepest first
+\* (meta keys are filtered by the harness' universe: it uses none)
+SortedKeys(t) == LET leaves == Keys(t, FALSE) IN leaves \cup UNION {Prefixes(q) : q \in leaves}
+DepthSorted(ks) == \A i, j \in 1..Len(ks) : i < j => Len(ks[i]) >= Len(ks[j])
+
 \* as_dict:215-226.  A node is converted when everything above it was: namespaces become dicts; a
 \* non-empty dict (list) whose values are all namespaces has them converted too; anything else is kept.
 AllNS(t, pa) == Children(t, pa) # {} /\ \A c \in Children(t, pa) : t[c] = "ns"
